@@ -22,13 +22,14 @@ use std::time::{Duration, Instant};
 
 pub struct C01;
 
-pub const TOKENS: [&str; 78] = [
+pub const TOKENS: [&str; 82] = [
     "module", "struct", "interface", "enum", "custom", "typealias", "Result", "Sequence", "Dictionary", "bool", "int8",
     "uint8", "int32", "varint62", "uint64", "float64", "string", "compact", "idempotent", "stream", "tag", "unchecked",
     "(", ")", "[", "]", "[[", "]]", "{", "}", "<", ">", ",", ":", "::", "=", "?", "->", "-", "A", "b", "\\struct", "\\a", "\\", "0",
     "7", "0x1F", "0b2", "0x", "1_000", "340282366920938463463374607431768211456", "\"s\"", "\"unclosed", "\"esc\\\"aped\"",
     "/// doc", "/// {@link A}", "/// @param x: y", "/// @", "// c", "//// c", "/* c */", "/* open", "#if A", "#elif A", "#else",
     "#endif", "#define A", "#undef A", "#", "#bogus", "\n", "\r\n", "\t", "é", "/", "@", "$", "\u{3000}",
+    "@param x : y", "@returns x\t: y", "@see A", "@throws E : y",
 ];
 
 /// (prefix, suffix) around the soup
